@@ -571,4 +571,60 @@ theorem readRowsT_nil (sep dec : UInt8) (fuel : Nat) (f : RFile) (started : Bool
 theorem readTableT_nil (text : Bytes) : readTableT [] text = readTable text := by
   simp only [readTableT, readTable, readRowsT_nil]
 
+/-! ## `readAs` with fewer (or more) type characters than the row has cells -/
+
+/-- the cells that have a type character suit it; nothing is asked here of the others -/
+def FitsPrefix (rdec : UInt8) : List ColType → List Cell → Prop
+  | t :: ts, c :: cs => Fits rdec t c ∧ FitsPrefix rdec ts cs
+  | _, _ => True
+
+/-- a cell beyond the type string is inferred: the three writer/reader decimal settings the untyped theorems cover -/
+def InferWF (wdec rdec : UInt8) (c : Cell) : Prop :=
+  (wdec = 46 ∧ rdec = 46 ∧ CellWF c) ∨ (wdec = 46 ∧ rdec = 44 ∧ CellWFsemi c) ∨ (wdec = 44 ∧ rdec = 44 ∧ CellWFsemi c)
+
+theorem inferCell_any (wdec rdec : UInt8) (c : Cell) (h : InferWF wdec rdec c) :
+    inferCell rdec (cellText (localize wdec c)) = expected c := by
+  rcases h with ⟨rfl, rfl, h⟩ | ⟨rfl, rfl, h⟩ | ⟨rfl, rfl, h⟩
+  · rw [localize_dot]; exact inferCell_expected c h
+  · rw [localize_dot]; exact inferCell_semi c h
+  · exact inferCell_comma c h
+
+theorem typedRow_texts_prefix (wdec rdec : UInt8) (hd : wdec = 46 ∨ wdec = rdec) (types : List ColType) (row : List Cell)
+    (hf : FitsPrefix rdec types row) (hw : ∀ c ∈ row.drop types.length, InferWF wdec rdec c) :
+    typedRow rdec types (row.map fun c => cellText (localize wdec c)) =
+      ((types.zip row).filterMap fun p => typedSpec p.1 p.2) ++ (row.drop types.length).map expected := by
+  induction types generalizing row with
+  | nil =>
+    rw [typedRow_nil]
+    simp only [List.zip_nil_left, List.filterMap_nil, List.nil_append, List.length_nil, List.drop_zero, List.map_map]
+    apply List.map_congr_left
+    intro c hc
+    exact inferCell_any wdec rdec c (hw c (by simpa using hc))
+  | cons ty ts ih =>
+    cases row with
+    | nil => simp [typedRow]
+    | cons c cs =>
+      obtain ⟨h1, h2⟩ := hf
+      have hw' : ∀ x ∈ cs.drop ts.length, InferWF wdec rdec x := by
+        intro x hx; exact hw x (by simpa using hx)
+      simp only [List.map_cons, typedRow, List.zip_cons_cons, List.filterMap_cons, ih cs h2 hw',
+        typedCell_localize wdec rdec hd _ _ h1, List.length_cons, List.drop_succ_cons]
+      cases typedSpec ty c <;> rfl
+
+/-- **row written with `setSeparator(sep)`, `setDecimal(wdec)`, read with a `readAs` string of any length** -/
+theorem typed_row_roundtrip_prefix (sep : UInt8) (hsep : sep ≠ 34) (wdec rdec : UInt8) (hd : wdec = 46 ∨ wdec = rdec)
+    (types : List ColType) (c : Cell) (t : List Cell)
+    (hok : ∀ x ∈ c :: t, CellOK sep (localize wdec x))
+    (hf : FitsPrefix rdec types (c :: t)) (hw : ∀ x ∈ (c :: t).drop types.length, InferWF wdec rdec x) :
+    typedRow rdec types (parseRow sep (rowTextG sep wdec (c :: t))) =
+      ((types.zip (c :: t)).filterMap fun p => typedSpec p.1 p.2) ++ ((c :: t).drop types.length).map expected := by
+  unfold rowTextG
+  rw [List.map_cons, parseRow_writeRow sep hsep (localize wdec c) (t.map (localize wdec))
+    (hok c (by simp)) (by
+      intro x hx
+      obtain ⟨y, hy, rfl⟩ := List.mem_map.mp hx
+      exact hok y (by simp [hy]))]
+  have := typedRow_texts_prefix wdec rdec hd types (c :: t) hf hw
+  simpa [List.map_map, Function.comp_def] using this
+
 end AslProofs.Csv
